@@ -29,14 +29,18 @@ def main():
     prop, sdir, k = sys.argv[1], sys.argv[2], sys.argv[3]
     checks = [prop]
     release = False
+    global OUTNAME
+    OUTNAME = None
     for a in sys.argv[4:]:
+        if a.startswith('--name='):
+            OUTNAME = a.split('=', 1)[1]
         if a.startswith('--checks='):
             checks = a.split('=', 1)[1].split(',')
         if a == '--release':
             release = True
     patch = os.path.join(sdir, 'patch%s.diff' % k)
     demo = os.path.join(sdir, 'demo%s.rs' % k)
-    wt = '/tmp/sv-%s-%s' % (prop, k)
+    wt = '/tmp/sv-%s-%s-%d' % (prop, k, os.getpid())
     sh('git -C /repo worktree remove --force %s' % wt)
     rc, out = sh('git -C /repo worktree add -q --detach %s HEAD' % wt)
     meta = {'property': prop, 'seed': k, 'repo_head': sh('git -C /repo rev-parse --short HEAD')[1].strip(), 'ran': []}
@@ -92,7 +96,7 @@ def main():
 
 
 def finish(meta, prop, k, patch, demo, sdir, ok):
-    d = os.path.join(VERIF, 'seeded', '%s-%s' % (prop, k))
+    d = os.path.join(VERIF, 'seeded', OUTNAME or '%s-%s' % (prop, k))
     if ok:
         os.makedirs(d, exist_ok=True)
         shutil.copy(patch, os.path.join(d, 'patch.diff'))
